@@ -22,7 +22,7 @@ def classes():
 
 def gen_consts(steps, runs, **over):
     c = dict(InCalls=[('ia1', 1)], OutAliases=['oa1'], Vals=['v1'], Excs=['E1'], Bodies=['plain', 'forces', 'discards'],
-             OutResults=[('val', 'v1')], Ctl=['discard', 'force'], Ends=['ret', 'raise', 'interrupt'],
+             OutResults=[('val', 'v1')], Ctl=['discard', 'force', 'subop'], Ends=['ret', 'raise', 'interrupt'],
              Classes=classes(), Draws=['low', 'high'], MaxSteps=steps, MaxRuns=runs, MaxRecs=runs)
     c.update(over)
     return consts(**c)
